@@ -31,6 +31,13 @@ def run(rep, tier):
     seq_prog = "f := (t: int) -> int { c := mut 0; for x in [1, 2, 3, 4]~ @ (y: int) -> int { return y * 2; } ? (z: int) -> bool { return z > 2; } { c += x; }; return *c + ([5, 6]~ $+) + ([7]~ $* ); }; (f, 0)"
     cases.append(f'(threads {T} {K} ' + q(seq_prog) + ")")
     checks.append(("unshared", "(ok (i 36))"))
+    # unshared, deeply recursive: the depth reached by one thread must not depend on the others
+    cases.append(f'(threads {T} {K // 5 + 1} ' + q("sum_to := (n: int) -> int { if n == 0 return 0; return n + sum_to(n - 1); }; f := (t: int) -> int { return sum_to(100); }; (f, 0)") + ")")
+    checks.append(("unshared", "(ok (i 5050))"))
+    # unshared, every value-producing construct that creates state per evaluation (iterators over literal
+    # arrays, type filters with cell defaults, fresh cells): the same Function run by all threads
+    cases.append(f'(threads {T} {K // 5 + 1} ' + q("end_of := (cells: [mut int]) -> mut int { it := cells~ ? mut int; return it().1; }; f := (t: int) -> int { a := end_of([]); a += 41; b := end_of([]); s := mut 0; for x in [1, 2, 3]~ { s += x; }; return *a * 1000 + *b * 100 + *s; }; (f, 0)") + ")")
+    checks.append(("unshared", "(ok (i 41006))"))
     # two cells updated in opposite orders by different threads: no deadlock
     cases.append(f'(threads {T} {K} ' + q("a := mut 0; b := mut 0; f := (t: int) -> int { if t % 2 == 0 { a += 1; b += 1; } else { b += 1; a += 1; }; return *a + *b; }; (f, a, b)") + ")")
     checks.append(("two", f"(mut 0 (i {T * K})) (mut 1 (i {T * K}))"))
